@@ -17,9 +17,9 @@ GRAPH_CLASSES = ("Subgraph", "KNNSubgraph")
 def inline_private_model_helpers(fi: FunctionInfo) -> bool:
     """Private helpers of the model classes are inlined so that an extract-method refactor
     does not lose the anchor; public entry points and graph/heap methods are summarised."""
-    if fi.cls in GRAPH_CLASSES and not fi.name.startswith("__"):
+    if fi.cls in GRAPH_CLASSES + ("Node",) and not fi.name.startswith("__"):
         from .ir import api_signature
-        return api_signature(fi) is None  # an undocumented helper of the graph classes (see Walker.call)
+        return api_signature(fi) is None and not fi.decorators  # an undocumented helper of the graph / node classes
     if fi.name.startswith("__"):
         return False
     if not fi.name.startswith("_"):
@@ -46,8 +46,8 @@ def graph_walk(repo: Repo, cls: str, method: str) -> Walker:
         fi = repo.need_method(cls, method)
         from .ir import api_signature
         repo.memo[key] = Walker(repo, fi, self_class=cls,
-                                inline=lambda f: (f.cls in GRAPH_CLASSES and not f.name.startswith("__")
-                                                  and api_signature(f) is None) or
+                                inline=lambda f: (f.cls in GRAPH_CLASSES + ("Node",) and not f.name.startswith("__")
+                                                  and api_signature(f) is None and not f.decorators) or
                                 f.name.startswith("_") and not f.name.startswith("__") and (
                                     f.cls in GRAPH_CLASSES or (f.cls is None and f.module.startswith(("opfython.subgraphs", "opfython.core")))))
     return repo.memo[key]
